@@ -1,6 +1,8 @@
 (* C16 -- FITS output followed by input reproduces values, orientation and pixel scale.
    Statements only.  The model (Model/C16.v) follows the code as repaired by fixes/C16_array1d_hdu_flip.diff and
-   fixes/C16_anisotropic_pixel_scale_header.diff.  Values are real numbers ([ROps]); arrays are lists of rows of ANY
+   fixes/C16_anisotropic_pixel_scale_header.diff.  The value statements hold for EVERY number
+   system [O : NumOps] satisfying the five laws [lawful O] (Proofs/C16.v: x == x; x == y only for equal values;
+   1 != 0; x * 1 = x; x / 1 = x) -- in particular for the real numbers (C16_reals_are_lawful); arrays are lists of rows of ANY
    lengths (1xN, Nx1, non-square and even ragged), [flip] is general.fits.flip_for_ds9 and is universally quantified
    in every statement.  astropy's codec (identity on float64 data and PIXSCALE* cards) and the file system are the
    oracles described at the top of Model/C16.v; a file is a list of HDUs, a freshly written one holds exactly one, so
@@ -12,37 +14,36 @@ From Coq Require Import ZArith QArith Reals List Bool.
 Close Scope Q_scope.
 From PAV Require Import Base.NumOps Base.Check Model.C16 Proofs.C16 Proofs.C16img.
 Import ListNotations.
-Local Notation RO := ROps.
 
 (* ------------------------------------------------------------------ values and orientation *)
 (* Array2D(values, mask): native form = the input with zeros at the masked pixels *)
-Theorem C16_masked_array_native_is_zero_filled : forall (vals : list (list (T RO))) mask sc,
+Theorem C16_masked_array_native_is_zero_filled : forall (O : NumOps) (L : lawful O) (vals : list (list (T O))) mask sc,
   same_len2 vals mask = true ->
-  exists a, @Array2D_new RO vals mask sc = FOk a
-    /\ Array2D_native a = @zero_fill RO mask vals /\ a_mask a = mask /\ a_scales a = sc.
-Proof. exact Array2D_new_native. Qed.
+  exists a, @Array2D_new O vals mask sc = FOk a
+    /\ Array2D_native a = @zero_fill O mask vals /\ a_mask a = mask /\ a_scales a = sc.
+Proof. exact @Array2D_new_native. Qed.
 
 (* HDU route, either flag value: hdu_for_output then from_primary_hdu (Array2D and Kernel2D share the text) gives back
    the native values, on an unmasked array, with the pixel scales recovered from the header alone *)
-Theorem C16_roundtrip_values_hdu : forall flip (a : @array2d RO),
+Theorem C16_roundtrip_values_hdu : forall (O : NumOps) (L : lawful O) flip (a : @array2d O),
   exists a', Array2D_from_primary_hdu flip (Array2D_hdu_for_output flip a) = FOk a'
     /\ Array2D_native a' = Array2D_native a
     /\ a_mask a' = all_false2 (Array2D_native a)
     /\ a_scales a' = a_scales a.
-Proof. exact Array2D_hdu_roundtrip. Qed.
+Proof. exact @Array2D_hdu_roundtrip. Qed.
 (* ... so a masked array reads back with zeros at the masked pixels *)
-Theorem C16_masked_array_reads_zeros : forall flip (vals : list (list (T RO))) mask sc,
+Theorem C16_masked_array_reads_zeros : forall (O : NumOps) (L : lawful O) flip (vals : list (list (T O))) mask sc,
   same_len2 vals mask = true ->
-  exists a a', @Array2D_new RO vals mask sc = FOk a
+  exists a a', @Array2D_new O vals mask sc = FOk a
     /\ Array2D_from_primary_hdu flip (Array2D_hdu_for_output flip a) = FOk a'
-    /\ Array2D_native a' = @zero_fill RO mask vals
-    /\ a_mask a' = all_false2 (@zero_fill RO mask vals)
+    /\ Array2D_native a' = @zero_fill O mask vals
+    /\ a_mask a' = all_false2 (@zero_fill O mask vals)
     /\ a_scales a' = sc.
-Proof. exact Array2D_masked_hdu_roundtrip. Qed.
+Proof. exact @Array2D_masked_hdu_roundtrip. Qed.
 
 (* file route, either flag value: output_to_fits then from_fits(hdu = 0 or -1); both header objects determine the
    pixel scales of the written array *)
-Theorem C16_roundtrip_values_file : forall flip (fs : fitsfs (T RO) (list (T RO))) (a : @array2d RO) p ow sc k,
+Theorem C16_roundtrip_values_file : forall (O : NumOps) (L : lawful O) flip (fs : fitsfs (T O) (list (T O))) (a : @array2d O) p ow sc k,
   fs_wf fs = true -> target_ok fs p = true -> fresh_or_overwrite fs p ow = true -> sole_index k = true ->
   exists fs' a' hs hh,
     Array2D_output_to_fits flip fs a p ow = (fs', None)
@@ -52,12 +53,12 @@ Theorem C16_roundtrip_values_file : forall flip (fs : fitsfs (T RO) (list (T RO)
     /\ a_scales a' = sc
     /\ pixel_scales_via_header_from hs = FOk (a_scales a)
     /\ pixel_scales_via_header_from hh = FOk (a_scales a).
-Proof. exact Array2D_file_roundtrip. Qed.
-Theorem C16_file_other_hdu_index_raises : forall flip (fs : fitsfs (T RO) (list (T RO))) (a : @array2d RO) p ow sc k,
+Proof. exact @Array2D_file_roundtrip. Qed.
+Theorem C16_file_other_hdu_index_raises : forall (O : NumOps) flip (fs : fitsfs (T O) (list (T O))) (a : @array2d O) p ow sc k,
   fs_wf fs = true -> target_ok fs p = true -> fresh_or_overwrite fs p ow = true -> sole_index k = false ->
   Array2D_from_fits flip (fst (Array2D_output_to_fits flip fs a p ow)) p sc k = FRaise IndexErr.
-Proof. exact Array2D_file_bad_hdu. Qed.
-Theorem C16_roundtrip_kernel_file : forall flip (fs : fitsfs (T RO) (list (T RO))) (a : @array2d RO) p ow sc k,
+Proof. exact @Array2D_file_bad_hdu. Qed.
+Theorem C16_roundtrip_kernel_file : forall (O : NumOps) (L : lawful O) flip (fs : fitsfs (T O) (list (T O))) (a : @array2d O) p ow sc k,
   fs_wf fs = true -> target_ok fs p = true -> fresh_or_overwrite fs p ow = true -> sole_index k = true ->
   exists fs' a' hs hh,
     Array2D_output_to_fits flip fs a p ow = (fs', None)
@@ -65,49 +66,49 @@ Theorem C16_roundtrip_kernel_file : forall flip (fs : fitsfs (T RO) (list (T RO)
     /\ Array2D_native a' = Array2D_native a
     /\ a_scales a' = sc
     /\ pixel_scales_via_header_from hs = FOk (a_scales a).
-Proof. exact Kernel2D_file_roundtrip. Qed.
+Proof. exact @Kernel2D_file_roundtrip. Qed.
 
 (* ------------------------------------------------------------------ masks *)
-Theorem C16_roundtrip_mask_bools_hdu : forall flip (m : @mask2d RO),
+Theorem C16_roundtrip_mask_bools_hdu : forall (O : NumOps) (L : lawful O) flip (m : @mask2d O),
   Mask2D_from_primary_hdu flip (Mask2D_hdu_for_output flip m) = FOk m.
-Proof. exact Mask2D_hdu_roundtrip. Qed.
-Theorem C16_roundtrip_mask_bools_file : forall flip (fs : fitsfs (T RO) (list (T RO))) (m : @mask2d RO) p ow sc k inv,
+Proof. exact @Mask2D_hdu_roundtrip. Qed.
+Theorem C16_roundtrip_mask_bools_file : forall (O : NumOps) (L : lawful O) flip (fs : fitsfs (T O) (list (T O))) (m : @mask2d O) p ow sc k inv,
   fs_wf fs = true -> target_ok fs p = true -> fresh_or_overwrite fs p ow = true -> sole_index k = true ->
   exists fs',
     Mask2D_output_to_fits flip fs m p ow = (fs', None)
     /\ Mask2D_from_fits flip fs' p sc k None inv
        = FOk (mkmask2 (if inv then map (map negb) (m_mask m) else m_mask m) sc)
     /\ (do h <- header_obj_from fs' p k; pixel_scales_via_header_from h) = FOk (m_scales m).
-Proof. exact Mask2D_file_roundtrip. Qed.
+Proof. exact @Mask2D_file_roundtrip. Qed.
 
 (* ------------------------------------------------------------------ pixel scale via the header *)
-Theorem C16_roundtrip_pixel_scale : forall sy sx : R,
-  @pixel_scales_via_header_from RO (@pixel_scale_header RO (@scales2 RO (sy, sx))) = FOk (sy, sx).
-Proof. exact pixel_scale_header_roundtrip. Qed.
-Theorem C16_header_isotropic_is_PIXSCALE : forall s : R,
-  @pixel_scale_header RO (@scales2 RO (s, s)) = [(PIXSCALE, s)].
-Proof. exact pixel_scale_header_iso. Qed.
-Theorem C16_header_anisotropic_is_PIXSCALEY_X : forall sy sx : R, sy <> sx ->
-  @pixel_scale_header RO (@scales2 RO (sy, sx)) = [(PIXSCALEY, sy); (PIXSCALEX, sx)].
-Proof. exact pixel_scale_header_aniso. Qed.
+Theorem C16_roundtrip_pixel_scale : forall (O : NumOps) (L : lawful O) (sy sx : T O),
+  @pixel_scales_via_header_from O (@pixel_scale_header O (@scales2 O (sy, sx))) = FOk (sy, sx).
+Proof. exact @pixel_scale_header_roundtrip. Qed.
+Theorem C16_header_isotropic_is_PIXSCALE : forall (O : NumOps) (L : lawful O) (s : T O),
+  @pixel_scale_header O (@scales2 O (s, s)) = [(PIXSCALE, s)].
+Proof. exact @pixel_scale_header_iso. Qed.
+Theorem C16_header_anisotropic_is_PIXSCALEY_X : forall (O : NumOps) (L : lawful O) (sy sx : T O), sy <> sx ->
+  @pixel_scale_header O (@scales2 O (sy, sx)) = [(PIXSCALEY, sy); (PIXSCALEX, sx)].
+Proof. exact @pixel_scale_header_aniso. Qed.
 
 (* ------------------------------------------------------------------ one dimension *)
-Theorem C16_array1d_native_is_zero_filled : forall (vals : list (T RO)) mask sc, length vals = length mask ->
-  Array1D_native (@Array1D_new RO vals mask sc) = @zero_fill_row RO mask vals
-  /\ b_mask (@Array1D_new RO vals mask sc) = mask /\ b_scale (@Array1D_new RO vals mask sc) = sc.
-Proof. exact Array1D_new_native. Qed.
-Theorem C16_roundtrip_array1d_hdu : forall flip (a : @array1d RO),
+Theorem C16_array1d_native_is_zero_filled : forall (O : NumOps) (L : lawful O) (vals : list (T O)) mask sc, length vals = length mask ->
+  Array1D_native (@Array1D_new O vals mask sc) = @zero_fill_row O mask vals
+  /\ b_mask (@Array1D_new O vals mask sc) = mask /\ b_scale (@Array1D_new O vals mask sc) = sc.
+Proof. exact @Array1D_new_native. Qed.
+Theorem C16_roundtrip_array1d_hdu : forall (O : NumOps) (L : lawful O) flip (a : @array1d O),
   exists a', Array1D_from_primary_hdu (Array1D_hdu_for_output flip a) = FOk a'
     /\ Array1D_native a' = Array1D_native a
     /\ b_mask a' = all_false1 (Array1D_native a)
     /\ b_scale a' = b_scale a.
-Proof. exact Array1D_hdu_roundtrip. Qed.
-Theorem C16_masked_array1d_reads_zeros : forall flip (vals : list (T RO)) mask sc, length vals = length mask ->
-  exists a', Array1D_from_primary_hdu (Array1D_hdu_for_output flip (@Array1D_new RO vals mask sc)) = FOk a'
-    /\ Array1D_native a' = @zero_fill_row RO mask vals
+Proof. exact @Array1D_hdu_roundtrip. Qed.
+Theorem C16_masked_array1d_reads_zeros : forall (O : NumOps) (L : lawful O) flip (vals : list (T O)) mask sc, length vals = length mask ->
+  exists a', Array1D_from_primary_hdu (Array1D_hdu_for_output flip (@Array1D_new O vals mask sc)) = FOk a'
+    /\ Array1D_native a' = @zero_fill_row O mask vals
     /\ b_scale a' = sc.
-Proof. exact Array1D_masked_hdu_roundtrip. Qed.
-Theorem C16_roundtrip_array1d_file : forall (fs : fitsfs (T RO) (T RO)) (a : @array1d RO) p ow sc k,
+Proof. exact @Array1D_masked_hdu_roundtrip. Qed.
+Theorem C16_roundtrip_array1d_file : forall (O : NumOps) (L : lawful O) (fs : fitsfs (T O) (T O)) (a : @array1d O) p ow sc k,
   fs_wf fs = true -> target_ok fs p = true -> fresh_or_overwrite fs p ow = true -> sole_index k = true ->
   exists fs' a' hs hh,
     Array1D_output_to_fits fs a p ow = (fs', None)
@@ -116,31 +117,31 @@ Theorem C16_roundtrip_array1d_file : forall (fs : fitsfs (T RO) (T RO)) (a : @ar
     /\ b_mask a' = all_false1 (Array1D_native a)
     /\ b_scale a' = sc
     /\ hlookup PIXSCALE hs = Some (b_scale a) /\ hlookup PIXSCALE hh = Some (b_scale a).
-Proof. exact Array1D_file_roundtrip. Qed.
-Theorem C16_roundtrip_mask1d_hdu : forall m : @mask1d RO, Mask1D_from_primary_hdu (Mask1D_hdu_for_output m) = FOk m.
-Proof. exact Mask1D_hdu_roundtrip. Qed.
-Theorem C16_roundtrip_mask1d_file : forall (fs : fitsfs (T RO) (T RO)) (m : @mask1d RO) p ow sc k,
+Proof. exact @Array1D_file_roundtrip. Qed.
+Theorem C16_roundtrip_mask1d_hdu : forall (O : NumOps) (L : lawful O) (m : @mask1d O), Mask1D_from_primary_hdu (Mask1D_hdu_for_output m) = FOk m.
+Proof. exact @Mask1D_hdu_roundtrip. Qed.
+Theorem C16_roundtrip_mask1d_file : forall (O : NumOps) (L : lawful O) (fs : fitsfs (T O) (T O)) (m : @mask1d O) p ow sc k,
   fs_wf fs = true -> target_ok fs p = true -> fresh_or_overwrite fs p ow = true -> sole_index k = true ->
   exists fs',
     Mask1D_output_to_fits fs m p ow = (fs', None)
     /\ Mask1D_from_fits fs' p sc k = FOk (mkmask1 (n_mask m) sc)
     /\ (do h <- header_obj_from fs' p k; FOk (hlookup PIXSCALE h)) = FOk (Some (n_scale m)).
-Proof. exact Mask1D_file_roundtrip. Qed.
+Proof. exact @Mask1D_file_roundtrip. Qed.
 
 (* ------------------------------------------------------------------ every output_to_fits is the one write sequence
    applied to the one-HDU content [hdu_for_output]: the file route and the HDU route carry the same data *)
-Theorem C16_array2d_output_is_write_of_hdu : forall flip (fs : fitsfs (T RO) (list (T RO))) (a : @array2d RO) p ow,
+Theorem C16_array2d_output_is_write_of_hdu : forall (O : NumOps) flip (fs : fitsfs (T O) (list (T O))) (a : @array2d O) p ow,
   Array2D_output_to_fits flip fs a p ow = to_fits fs p ow [Array2D_hdu_for_output flip a].
-Proof. exact Array2D_output_is_to_fits. Qed.
-Theorem C16_mask2d_output_is_write_of_hdu : forall flip (fs : fitsfs (T RO) (list (T RO))) (m : @mask2d RO) p ow,
+Proof. exact @Array2D_output_is_to_fits. Qed.
+Theorem C16_mask2d_output_is_write_of_hdu : forall (O : NumOps) flip (fs : fitsfs (T O) (list (T O))) (m : @mask2d O) p ow,
   Mask2D_output_to_fits flip fs m p ow = to_fits fs p ow [Mask2D_hdu_for_output flip m].
-Proof. exact Mask2D_output_is_to_fits. Qed.
-Theorem C16_array1d_output_is_write_of_hdu : forall flip (fs : fitsfs (T RO) (T RO)) (a : @array1d RO) p ow,
+Proof. exact @Mask2D_output_is_to_fits. Qed.
+Theorem C16_array1d_output_is_write_of_hdu : forall (O : NumOps) flip (fs : fitsfs (T O) (T O)) (a : @array1d O) p ow,
   Array1D_output_to_fits fs a p ow = to_fits fs p ow [Array1D_hdu_for_output flip a].
-Proof. exact Array1D_output_is_to_fits. Qed.
-Theorem C16_mask1d_output_is_write_of_hdu : forall (fs : fitsfs (T RO) (T RO)) (m : @mask1d RO) p ow,
+Proof. exact @Array1D_output_is_to_fits. Qed.
+Theorem C16_mask1d_output_is_write_of_hdu : forall (O : NumOps) (fs : fitsfs (T O) (T O)) (m : @mask1d O) p ow,
   Mask1D_output_to_fits fs m p ow = to_fits fs p ow [Mask1D_hdu_for_output m].
-Proof. exact Mask1D_output_is_to_fits. Qed.
+Proof. exact @Mask1D_output_is_to_fits. Qed.
 
 (* ------------------------------------------------------------------ paths, overwrite, directories (any file content C) *)
 (* the code's sequence split / exists / makedirs / remove / writeto computes exactly the specified write *)
@@ -180,35 +181,35 @@ Proof. exact @to_fits_keeps_wf. Qed.
    three sequential writes (data, psf, noise map) to pairwise independent targets ([indep]: neither path is the other
    nor an ancestor directory of the other), then the three reads; from_fits re-normalises the PSF, so it comes back
    divided by the sum of its entries -- unchanged when that sum is one (which Imaging's own constructor ensures) *)
-Theorem C16_imaging_roundtrip : forall flip (fs : fitsfs (T RO) (list (T RO))) (data noise psf : @array2d RO) pd pp pn ow sc chk,
+Theorem C16_imaging_roundtrip : forall (O : NumOps) (L : lawful O) flip (fs : fitsfs (T O) (list (T O))) (data noise psf : @array2d O) pd pp pn ow sc chk,
   fs_wf fs = true ->
   target_ok fs pd = true -> target_ok fs pp = true -> target_ok fs pn = true ->
   fresh_or_overwrite fs pd ow = true -> fresh_or_overwrite fs pp ow = true -> fresh_or_overwrite fs pn ow = true ->
   indep pd pp = true -> indep pd pn = true -> indep pp pn = true ->
-  chk && negb (forallb (fun v => negb (leb RO v zero)) (concat (Array2D_native noise))) = false ->
+  chk && negb (forallb (fun v => negb (leb O v zero)) (concat (Array2D_native noise))) = false ->
   exists fs3 d n k,
     Imaging_output_to_fits flip fs data noise psf pd pp pn ow = (fs3, None)
     /\ Imaging_from_fits flip fs3 sc pd pp pn chk = FOk (d, n, k)
     /\ Array2D_native d = Array2D_native data /\ a_scales d = sc
     /\ Array2D_native n = Array2D_native noise /\ a_scales n = sc
-    /\ Array2D_native k = map (map (fun x => div RO x (sumT (concat (Array2D_native psf))))) (Array2D_native psf)
+    /\ Array2D_native k = map (map (fun x => div O x (sumT (concat (Array2D_native psf))))) (Array2D_native psf)
     /\ a_scales k = sc.
-Proof. exact Imaging_roundtrip. Qed.
+Proof. exact @Imaging_roundtrip. Qed.
 Theorem C16_imaging_roundtrip_normalized_psf :
-  forall flip (fs : fitsfs (T RO) (list (T RO))) (data noise psf : @array2d RO) pd pp pn ow sc chk,
+  forall (O : NumOps) (L : lawful O) flip (fs : fitsfs (T O) (list (T O))) (data noise psf : @array2d O) pd pp pn ow sc chk,
   fs_wf fs = true ->
   target_ok fs pd = true -> target_ok fs pp = true -> target_ok fs pn = true ->
   fresh_or_overwrite fs pd ow = true -> fresh_or_overwrite fs pp ow = true -> fresh_or_overwrite fs pn ow = true ->
   indep pd pp = true -> indep pd pn = true -> indep pp pn = true ->
-  chk && negb (forallb (fun v => negb (leb RO v zero)) (concat (Array2D_native noise))) = false ->
-  sumT (concat (Array2D_native psf)) = @one RO ->
+  chk && negb (forallb (fun v => negb (leb O v zero)) (concat (Array2D_native noise))) = false ->
+  sumT (concat (Array2D_native psf)) = @one O ->
   exists fs3 d n k,
     Imaging_output_to_fits flip fs data noise psf pd pp pn ow = (fs3, None)
     /\ Imaging_from_fits flip fs3 sc pd pp pn chk = FOk (d, n, k)
     /\ Array2D_native d = Array2D_native data
     /\ Array2D_native n = Array2D_native noise
     /\ Array2D_native k = Array2D_native psf.
-Proof. exact Imaging_roundtrip_normalized_psf. Qed.
+Proof. exact @Imaging_roundtrip_normalized_psf. Qed.
 
 (* ------------------------------------------------------------------ non-vacuity *)
 (* file-system hypotheses: a tree with directory 1, a file 1/10 and a bystander 19; targets: the existing file
@@ -227,6 +228,10 @@ Example C16_fs_hyps_satisfiable :
   /\ to_fits ex_fs [10] false 9 = (mkfs [[1]] [([1; 10], 7); ([19], 8); ([10], 9)], None)%nat.
 Proof. vm_compute. repeat split. Qed.
 (* shape hypotheses: a non-square 2x3 array with a masked pixel; a 1-D array with a masked pixel; unequal scales *)
+Local Notation RO := ROps.
+(* the laws assumed of the number system hold for the reals *)
+Theorem C16_reals_are_lawful : lawful ROps.
+Proof. exact reals_lawful. Qed.
 Example C16_shape_hyps_satisfiable :
   same_len2 [[1; -2; 3]; [4; 5; -6]]%R [[false; true; false]; [false; false; false]] = true
   /\ length [1; -2; 3]%R = length [false; true; false]
@@ -284,3 +289,4 @@ Print Assumptions C16_bare_name_writes_cwd.
 Print Assumptions C16_write_keeps_tree_wellformed.
 Print Assumptions C16_imaging_roundtrip.
 Print Assumptions C16_imaging_roundtrip_normalized_psf.
+Print Assumptions C16_reals_are_lawful.
